@@ -3,6 +3,8 @@ HARNESSES = [Harness('c15string', 'h_c15_string_' + n, unwind=42, mem_gb=6, time
     ('assign_heap', 'String with a 15-character heap buffer holding 9 symbolic characters, assign() of 40 symbolic characters; the growth malloc may fail; then a retry'),
     ('assign_small', 'embedded 9-character string, assign() of 40 characters'),
     ('append_heap', 'heap string (capacity 15, 9 characters) + append() of 24 characters'),
-    ('append_chars_heap', 'heap string (capacity 15, 12 characters) + append_chars(c, 8)'))]
+    ('append_chars_heap', 'heap string (capacity 15, 12 characters) + append_chars(c, 8)'),
+    ('assign_chars_heap', 'heap string (capacity 15, 9 characters), assign_chars(c, 40): the kAssign branch of String::prepare (shared by assign_format / assign_hex / assign_int); the growth malloc may fail; then a retry'),
+    ('assign_chars_small', 'embedded 9-character string, assign_chars(c, 40)'))]
 ASSUMPTIONS = ['String harnesses: malloc (may fail) and free (recorded, the block is kept readable) routed through the harness']
 OUTSIDE = ['String: append() growing an embedded (small) string (no verdict within 6 GB: the embedded characters overlay the pointer field); other sizes than the ones listed per harness (sizes are constants so that every memcpy length is concrete); append_format / append_hex growth (same prepare() path)']
